@@ -86,7 +86,19 @@ def forgeries(blob, rec):
     # (label, field order put in the blob, public value put in the blob, shared secrets the forger bets on)
     plans = [("y=1", p_, 1, [1]), ("y=0", p_, 0, [0]), ("y=p-1", p_, p_ - 1, [1, p_ - 1]), ("p=2,y=1", 2, 1, [1]), ("p=1", 1, 0, [0]),
              ("p=4,y=2", 4, 2, [0]), ("p=9,y=3", 9, 3, [0]), ("p=8,y=4", 8, 4, [0])]       # in-range values of a foreign group with a predictable secret
-    for label, fo, y, bets in plans:
+    plans = [(label, kl, fo, g_ % max(fo, 1), y, bets) for (label, fo, y, bets) in plans]
+    # a tiny group whose encoding is a byte PREFIX of the real one (key_length 1 or 2, p and g cut from the leading bytes of the
+    # real p ‖ g or of the real p alone), with an idempotent or nilpotent public value: the secret does not depend on any private key
+    pb, gb = ki[8:8 + kl], ki[8 + kl:8 + 2 * kl]
+    for k2 in (1, 2):
+        for (how, p2, g2) in (("p,g", int.from_bytes(pb[:k2], "big"), int.from_bytes(gb[:k2], "big")), ("pp", int.from_bytes(pb[:k2], "big"), int.from_bytes(pb[k2:2 * k2], "big"))):
+            idem = [y for y in range(2, p2 - 1) if y * y % p2 == y][:2]
+            nil = [y for y in range(2, p2 - 1) if pow(y, 16, p2) == 0][:1]
+            for y in idem:
+                plans.append((f"prefix-group[{how}]:kl={k2},p={p2},y={y}(idempotent)", k2, p2, g2, y, [y]))
+            for y in nil:
+                plans.append((f"prefix-group[{how}]:kl={k2},p={p2},y={y}(nilpotent)", k2, p2, g2, y, [0]))
+    for label, kl, fo, gg, y, bets in plans:
         for z in bets:
             try:
                 shared = z.to_bytes(kl, "big")
@@ -95,9 +107,9 @@ def forgeries(blob, rec):
                 cek = hashlib.sha256(b"forger cek " + label.encode()).digest()
                 iv = b.enc_content_parameters[4:16]
                 evil = b"forged by a party without keys"
-                kid = dataclasses.replace(b.key_identifier, key_info=refimpl.ffc_key(kl, fo, g_ % max(fo, 1), y))
+                kid = dataclasses.replace(b.key_identifier, key_info=refimpl.ffc_key(kl, fo, gg, y))
                 fb = dataclasses.replace(b, key_identifier=kid, enc_cek=keywrap.aes_key_wrap(kek, cek), enc_content=AESGCM(cek).encrypt(iv, evil, None))
-                out.append((f"forgery:{label}:bet={'1' if z == 1 else '0' if z == 0 else 'p-1'}", fb.pack()))
+                out.append((f"forgery:{label}:bet={'1' if z == 1 else '0' if z == 0 else 'p-1' if z == fo - 1 else 'y'}", fb.pack()))
             except Exception:  # noqa  (a plan the structures cannot express)
                 pass
     return out
